@@ -64,20 +64,41 @@ func (p *Prof) build() *profile.Profile {
 	}
 	m := &profile.Mapping{ID: 1, Start: 0x1000, Limit: 0x9000, File: "/bin/app", HasFunctions: true}
 	pp.Mapping = []*profile.Mapping{m}
-	for i, n := range funcNames {
-		pp.Function = append(pp.Function, &profile.Function{ID: uint64(i + 1), Name: n, SystemName: n, Filename: "f.go", StartLine: int64(10 * (i + 1))})
+	// only what the samples reference goes into the tables, as a real profiler would write it
+	usedLoc := map[int]bool{}
+	usedFn := map[int]bool{}
+	for _, s := range p.Samples {
+		for _, li := range s.Stack {
+			usedLoc[li] = true
+			for _, f := range locLines[li] {
+				usedFn[f] = true
+			}
+		}
 	}
+	fns := map[int]*profile.Function{}
+	for i, n := range funcNames {
+		if usedFn[i] {
+			f := &profile.Function{ID: uint64(i + 1), Name: n, SystemName: n, Filename: "f.go", StartLine: int64(10 * (i + 1))}
+			fns[i] = f
+			pp.Function = append(pp.Function, f)
+		}
+	}
+	locs := map[int]*profile.Location{}
 	for i, lines := range locLines {
+		if !usedLoc[i] {
+			continue
+		}
 		l := &profile.Location{ID: uint64(i + 1), Mapping: m, Address: uint64(0x1000 + 16*i)}
 		for k, f := range lines {
-			l.Line = append(l.Line, profile.Line{Function: pp.Function[f], Line: int64(100*i + k)})
+			l.Line = append(l.Line, profile.Line{Function: fns[f], Line: int64(100*i + k)})
 		}
+		locs[i] = l
 		pp.Location = append(pp.Location, l)
 	}
 	for _, s := range p.Samples {
 		smp := &profile.Sample{Value: append([]int64{}, s.Vals...)}
 		for _, li := range s.Stack {
-			smp.Location = append(smp.Location, pp.Location[li])
+			smp.Location = append(smp.Location, locs[li])
 		}
 		pp.Sample = append(pp.Sample, smp)
 	}
